@@ -2,7 +2,7 @@
 (* Trace specification for Auth: TLC recomputes every decision the driver  *)
 (* c20 / c20http obtained from the real code.                              *)
 (*                                                                         *)
-(* One trace file = one rank range ("part k of K") of the table universe.  *)
+(* One trace file = one residue class of table ranks ("part k of K").      *)
 (* Lines: Reset, Paths (binds the driver's request enumeration to the      *)
 (* spec's and checks the real path.Clean), Tab (one grant table: the       *)
 (* decision bitmask of every request resource), Node (single-carrier       *)
@@ -36,8 +36,7 @@ PartN == Trace[1].parts
 NG == Len(GrantPathOrder)
 NOpt == Len(OptOrder)
 TotalRanks == Pow(NOpt + 1, NG)
-RankLo == ((PartK - 1) * TotalRanks) \div PartN
-RankHi == (PartK * TotalRanks) \div PartN
+InPart(rank) == rank % PartN = PartK - 1        \* part k of K holds the tables whose rank is k-1 modulo K
 TabOfMasks(g) ==
     [q \in { GrantPathOrder[j] : j \in { k \in 1..NG : g[k] # -1 } } |-> SetOfMask(g[IndexIn(GrantPathOrder, q)])]
 InOpts(g) == \A j \in 1..NG : g[j] = -1 \/ (g[j] \in 0..FullMask /\ SetOfMask(g[j]) \in Range(OptOrder))
@@ -46,13 +45,19 @@ RECURSIVE RankFrom(_, _)
 RankFrom(g, j) == IF j > NG THEN 0 ELSE CodeOf(g[j]) * Pow(NOpt + 1, j - 1) + RankFrom(g, j + 1)
 NGranted(g) == Cardinality({ j \in 1..NG : g[j] # -1 })
 
-(* cardinality of this part's table universe, from the constants *)
-RECURSIVE CodeRank(_, _)
-CodeRank(c, j) == IF j > NG THEN 0 ELSE c[j] * Pow(NOpt + 1, j - 1) + CodeRank(c, j + 1)
+Comparable(p, q) == IsPrefix(p, q) \/ IsPrefix(q, p)
+ChainIdx(C) == \A i \in C, j \in C : Comparable(GrantPathOrder[i], GrantPathOrder[j])
+ChainOK(g) == ChainOnly => ChainIdx({ j \in 1..NG : g[j] # -1 })
+
+(* cardinality of this part's table universe, from the constants: carrier    *)
+(* sets of at most maxg paths (chains only if ChainOnly), every assignment   *)
+(* of privilege sets, rank inside the part                           *)
+RECURSIVE AssignRank(_, _, _)
+AssignRank(C, f, j) == IF j > NG THEN 0 ELSE (IF j \in C THEN f[j] * Pow(NOpt + 1, j - 1) ELSE 0) + AssignRank(C, f, j + 1)
+CarrierSets(maxg) == { C \in SUBSET (1..NG) : Cardinality(C) <= maxg /\ (ChainOnly => ChainIdx(C)) }
 PartTables(maxg) ==
-    Cardinality({ c \in [1..NG -> 0..NOpt] :
-        /\ Cardinality({ j \in 1..NG : c[j] # 0 }) <= maxg
-        /\ CodeRank(c, 1) >= RankLo /\ CodeRank(c, 1) < RankHi })
+    Cardinality(UNION { { <<C, f>> : f \in { h \in [C -> 1..NOpt] : InPart(AssignRank(C, h, 1)) } }
+                        : C \in CarrierSets(maxg) })
 
 ---------------------------------------------------------------------------
 (* the properties on logged decision tables *)
@@ -111,7 +116,8 @@ TrTab ==
            r == (IF a THEN TotalRanks ELSE 0) + RankFrom(g, 1)
        IN /\ Check("universe-table", /\ Len(g) = NG /\ InOpts(g)
                                      /\ NGranted(g) <= (IF a THEN AdminMaxGranted ELSE MaxGranted)
-                                     /\ RankFrom(g, 1) >= RankLo /\ RankFrom(g, 1) < RankHi
+                                     /\ ChainOK(g)
+                                     /\ InPart(RankFrom(g, 1))
                                      /\ r > last /\ Len(Ln.dec) = NReq)
           /\ Check("NearestGrantDecides", NearestOK(a, t, Ln.dec) \/ (ExplainNearest(a, t, Ln.dec) /\ FALSE))
           /\ Check("TricksNeverWiden", TricksOK(Ln.dec) \/ (ExplainTricks(Ln.dec) /\ FALSE))
@@ -233,7 +239,8 @@ TrHttp ==
            N == Len(HttpReqSeq)
        IN /\ Check("universe-http-table", /\ Len(g) = NG /\ InOpts(g) /\ cfg \in HttpCfgs
                                           /\ NGranted(g) <= (IF ci = 0 THEN MaxGranted ELSE 0)
-                                          /\ RankFrom(g, 1) >= RankLo /\ RankFrom(g, 1) < RankHi
+                                          /\ ChainOK(g)
+                                          /\ InPart(RankFrom(g, 1))
                                           /\ r > last /\ Len(Ln.out) = N)
           /\ Check("ServedIffAuthorised",
                    (\A j \in 1..N : OutServed(Ln.out[j]) \in RefServeI(cfg, t, HttpInfoSeq[j])) \/ (ExplainHttp(cfg, t, Ln.out) /\ FALSE))
@@ -258,7 +265,7 @@ HW == IF l > TLCGet(1) THEN TLCSet(1, l) /\ TLCSet(2, cnt) ELSE TRUE
 
 (* acceptance: every line explained, and the part's universe is covered:    *)
 (* ranks are strictly increasing (so tables are pairwise distinct) and      *)
-(* their number equals the number of tables of the universe in the range    *)
+(* their number equals the number of tables of the universe in the part     *)
 DirectComplete(c) ==
     /\ c.paths = 1
     /\ c.ntab = PartTables(MaxGranted)
